@@ -1,6 +1,6 @@
-(* Proofs about Graph::backward and the parameter store (C06). *)
+(* Proofs about Graph::backward and the parameter store (C06): structure of one sweep step. *)
 From Coq Require Import List NArith Bool Arith Lia.
-From PV Require Import Graph.OpFamily Graph.Tape Graph.Lazy Graph.Backward Graph.LazyProofs.
+From PV Require Import Graph.OpFamily Graph.Tape Graph.Lazy Graph.Backward Graph.TapeLemmas Graph.LazyProofs.
 Import ListNotations.
 
 Section BackwardProofs.
@@ -8,8 +8,10 @@ Section BackwardProofs.
   Variable F : OpFamily Op Sh V.
   Variable VO : ValOps Sh V.
   Notation gstate := (@gstate Op Sh V).
+  Notation opinfo := (@opinfo Op Sh V).
   Notation slot := (@slot Sh V).
   Notation env := (@env V).
+  Notation ops_t := (list opinfo).
 
   (* ---------- reset_gradient()/reset_gradients() return exactly to zero ---------- *)
   Lemma reset_zero (e : env) ps p sh :
@@ -20,5 +22,290 @@ Section BackwardProofs.
   Proof.
     intros H. cbn [reset_gradients e_pgrad e_pval e_pos]. rewrite H. repeat split; auto.
     intros q Hq. rewrite Hq. reflexivity.
+  Qed.
+
+  (* ---------- slot-wise description of the updates a sweep step performs ---------- *)
+  Definition map_op (ops : ops_t) (k : nat) (f : slot -> slot) : ops_t :=
+    match nth_error ops k with
+    | Some oi => set_nth ops k (set_rets oi (map f (o_rets oi)))
+    | None => ops
+    end.
+  Definition clr (s : slot) : slot := set_grad s None.
+  Definition fold_mat (ops : ops_t) (args : list (nat * nat)) : ops_t :=
+    fold_left (fun o a => upd_ops o a (mat_zero VO)) args ops.
+
+  Lemma map_op_get ops k f b : get_slot_ops (map_op ops k f) b =
+    if Nat.eqb k (fst b) then option_map f (get_slot_ops ops b) else get_slot_ops ops b.
+  Proof.
+    unfold map_op, get_slot_ops. destruct (Nat.eqb_spec k (fst b)) as [<-|N].
+    - destruct (nth_error ops k) as [oi|] eqn:E; [|rewrite E; reflexivity].
+      rewrite nth_error_set_nth_eq by (eapply nth_error_lt; eauto). cbn [o_rets set_rets]. rewrite nth_error_map. reflexivity.
+    - destruct (nth_error ops k) as [oi|] eqn:E; auto. rewrite nth_error_set_nth_neq by auto. reflexivity.
+  Qed.
+  Lemma map_op_other ops k f j : j <> k -> nth_error (map_op ops k f) j = nth_error ops j.
+  Proof. intros H. unfold map_op. destruct (nth_error ops k); auto. apply nth_error_set_nth_neq. auto. Qed.
+  Lemma map_op_at ops k f oi : nth_error ops k = Some oi -> nth_error (map_op ops k f) k = Some (set_rets oi (map f (o_rets oi))).
+  Proof. intros E. unfold map_op. rewrite E. apply nth_error_set_nth_eq. eapply nth_error_lt; eauto. Qed.
+  Lemma map_op_some ops k f oi : nth_error ops k = Some oi -> map_op ops k f = set_nth ops k (set_rets oi (map f (o_rets oi))).
+  Proof. intros E. unfold map_op. rewrite E. reflexivity. Qed.
+  Lemma map_op_length ops k f : length (map_op ops k f) = length ops.
+  Proof. unfold map_op. destruct (nth_error ops k); auto. apply length_set_nth. Qed.
+
+  Lemma fold_mat_other args : forall ops j, (forall a, In a args -> fst a <> j) -> nth_error (fold_mat ops args) j = nth_error ops j.
+  Proof.
+    induction args as [|a args IH]; intros ops j H; simpl; auto.
+    unfold fold_mat in *. simpl. rewrite IH by (intros b Hb; apply H; right; exact Hb).
+    apply upd_ops_other. intro E. apply (H a); [left; reflexivity|auto].
+  Qed.
+  Lemma add_incs_other args : forall (ops : ops_t) incs j, (forall a, In a args -> fst a <> j) ->
+    nth_error (add_incs VO ops args incs) j = nth_error ops j.
+  Proof.
+    induction args as [|a args IH]; intros ops [|inc incs] j H; simpl; auto.
+    rewrite IH by (intros b Hb; apply H; right; exact Hb).
+    apply upd_ops_other. intro E. apply (H a); [left; reflexivity|auto].
+  Qed.
+
+  (* what backward reads for argument a: the value, else the live parameter value *)
+  Definition bread (ops : ops_t) (e : env) (a : nat * nat) : option V :=
+    match nth_error ops (fst a) with
+    | Some oi => match nth_error (o_rets oi) (snd a) with
+                 | Some s => match s_val s with
+                             | Some v => Some v
+                             | None => match f_inner F (o_op oi) with Some p => Some (e_pval e p) | None => None end
+                             end
+                 | None => None
+                 end
+    | None => None
+    end.
+
+  Lemma grad_only_sg (ops : ops_t) a f : (forall s, set_grad (f s) None = set_grad s None) -> sg (upd_ops ops a f) = sg ops.
+  Proof.
+    intros Hf. unfold upd_ops. destruct (nth_error ops (fst a)) as [oi|] eqn:E; auto.
+    destruct (nth_error (o_rets oi) (snd a)) as [s|] eqn:Es; auto.
+    unfold sg. rewrite map_set_nth. apply set_nth_same. rewrite nth_error_map, E. simpl. f_equal.
+    unfold strip_grads, set_rets. cbn [o_op o_args o_rets]. f_equal. rewrite map_set_nth. symmetry. apply set_nth_same.
+    rewrite nth_error_map, Es. simpl. f_equal. symmetry. apply Hf.
+  Qed.
+  Lemma map_op_sg (ops : ops_t) k f : (forall s, set_grad (f s) None = set_grad s None) -> sg (map_op ops k f) = sg ops.
+  Proof.
+    intros Hf. unfold map_op. destruct (nth_error ops k) as [oi|] eqn:E; auto.
+    unfold sg. rewrite map_set_nth. apply set_nth_same. rewrite nth_error_map, E. simpl. f_equal.
+    unfold strip_grads, set_rets. cbn [o_op o_args o_rets]. f_equal. rewrite map_map. apply map_ext. intro s. symmetry. apply Hf.
+  Qed.
+  Lemma mat_zero_grad_only s : set_grad (mat_zero VO s) None = set_grad s None.
+  Proof. unfold mat_zero. destruct (s_grad s); reflexivity. Qed.
+  Lemma add_inc_grad_only inc s : set_grad (add_inc VO inc s) None = set_grad s None.
+  Proof. unfold add_inc. destruct (s_grad s); reflexivity. Qed.
+  Lemma clr_grad_only s : set_grad (clr s) None = set_grad s None.
+  Proof. reflexivity. Qed.
+  Lemma fold_mat_sg args : forall ops : ops_t, sg (fold_mat ops args) = sg ops.
+  Proof.
+    induction args as [|a args IH]; intro ops; simpl; auto. unfold fold_mat in *. simpl.
+    rewrite IH. apply grad_only_sg. apply mat_zero_grad_only.
+  Qed.
+  Lemma add_incs_sg args : forall (ops : ops_t) incs, sg (add_incs VO ops args incs) = sg ops.
+  Proof.
+    induction args as [|a args IH]; intros ops [|inc incs]; simpl; auto.
+    rewrite IH. apply grad_only_sg. apply add_inc_grad_only.
+  Qed.
+
+  Lemma sg_nth (ops ops' : ops_t) k : sg ops = sg ops' ->
+    match nth_error ops k, nth_error ops' k with
+    | Some a, Some b => o_op a = o_op b /\ o_args a = o_args b /\ length (o_rets a) = length (o_rets b) /\
+                        map s_val (o_rets a) = map s_val (o_rets b) /\ map s_shape (o_rets a) = map s_shape (o_rets b)
+    | None, None => True
+    | _, _ => False
+    end.
+  Proof.
+    intros H. assert (E : nth_error (sg ops) k = nth_error (sg ops') k) by (rewrite H; reflexivity).
+    unfold sg in E. rewrite !nth_error_map in E.
+    destruct (nth_error ops k) as [a|], (nth_error ops' k) as [b|]; simpl in E; try discriminate; auto.
+    injection E as E1 E2 E3. repeat split; auto.
+    - apply (f_equal (@length _)) in E3. rewrite !map_length in E3. exact E3.
+    - apply (f_equal (map s_val)) in E3. rewrite !map_map in E3. exact E3.
+    - apply (f_equal (map s_shape)) in E3. rewrite !map_map in E3. exact E3.
+  Qed.
+
+  Lemma gather_args_spec args : forall (ops : ops_t) e xs ops',
+    gather_args F VO ops e args = Some (xs, ops') ->
+    ops' = fold_mat ops args /\ Forall2 (fun a x => bread ops e a = Some x) args xs.
+  Proof.
+    induction args as [|a args IH]; intros ops e xs ops' H; simpl in H.
+    - injection H as <- <-. split; [reflexivity|constructor].
+    - destruct (nth_error ops (fst a)) as [arg_f|] eqn:Ef; [|discriminate].
+      destruct (nth_error (o_rets arg_f) (snd a)) as [arg_n|] eqn:En; [|discriminate].
+      match type of H with match ?ov with _ => _ end = _ => destruct ov as [v|] eqn:Ev end; [|discriminate].
+      destruct (gather_args F VO (upd_ops ops a (mat_zero VO)) e args) as [[vs ops2]|] eqn:Eg; [|discriminate].
+      injection H as <- <-. destruct (IH _ _ _ _ Eg) as (E2 & F2). split; [exact E2|]. constructor.
+      + unfold bread. rewrite Ef, En. exact Ev.
+      + eapply Forall2_impl; [|exact F2]. intros b y. cbv beta. unfold bread.
+        (* values are not touched by the materialisation of a gradient *)
+        pose proof (sg_nth (upd_ops ops a (mat_zero VO)) ops (fst b) (grad_only_sg ops a _ (mat_zero_grad_only))) as Hk.
+        destruct (nth_error (upd_ops ops a (mat_zero VO)) (fst b)) as [o1|], (nth_error ops (fst b)) as [o2|]; try contradiction; auto.
+        destruct Hk as (Eo & _ & _ & Evals & _). rewrite Eo.
+        assert (Es : option_map s_val (nth_error (o_rets o1) (snd b)) = option_map s_val (nth_error (o_rets o2) (snd b))).
+        { rewrite <- !nth_error_map, Evals. reflexivity. }
+        destruct (nth_error (o_rets o1) (snd b)) as [s1|], (nth_error (o_rets o2) (snd b)) as [s2|]; simpl in Es; try discriminate; auto.
+        injection Es as ->. auto.
+  Qed.
+
+  Lemma all_vals_map_grad (rets : list slot) (f : slot -> slot) : (forall s, s_val (f s) = s_val s) -> all_vals (map f rets) = all_vals rets.
+  Proof. intros Hf. induction rets as [|s r IH]; simpl; auto. rewrite Hf, IH. reflexivity. Qed.
+  Lemma grad_or_zero_mat s : grad_or_zero VO (mat_zero VO s) = grad_or_zero VO s.
+  Proof. unfold grad_or_zero, mat_zero. destruct (s_grad s) eqn:E; cbn [s_grad set_grad s_shape]; [rewrite E|]; reflexivity. Qed.
+
+  (* The shape of one iteration of the sweep loop on a well-formed tape. *)
+  Definition step_shape (k : nat) (ops : ops_t) (e : env) (ops' : ops_t) (e' : env) (c : bool) : Prop :=
+    exists cur, nth_error ops k = Some cur /\
+      ((c = false /\ enabled (o_rets cur) = false /\ ops' = ops /\ e' = e) \/
+       (c = true /\ enabled (o_rets cur) = true /\
+        let ops2 := fold_mat (map_op ops k (mat_zero VO)) (o_args cur) in
+        let gys := map (grad_or_zero VO) (o_rets cur) in
+        exists xs, Forall2 (fun a x => bread ops e a = Some x) (o_args cur) xs /\
+          ((exists p gy rest, f_inner F (o_op cur) = Some p /\ gys = gy :: rest /\
+                              ops' = map_op ops2 k clr /\ e' = add_pgrad VO e p gy) \/
+           (f_inner F (o_op cur) = None /\ exists ys, all_vals (o_rets cur) = Some ys /\
+              ops' = map_op (add_incs VO ops2 (o_args cur) (eff_bw F (o_op cur) xs ys gys)) k clr /\ e' = e)))).
+
+  Lemma bstep_shape k (ops : ops_t) e ops' e' c : wf_ops ops ->
+    bstep F VO k ops e = Some (ops', e', c) -> step_shape k ops e ops' e' c.
+  Proof.
+    intros Hwf H. unfold bstep in H. destruct (nth_error ops k) as [cur|] eqn:Ecur; [|discriminate].
+    exists cur. split; [exact Ecur|].
+    destruct (enabled (o_rets cur)) eqn:Een; simpl in H.
+    2:{ injection H as <- <- <-. left. auto. }
+    right.
+    assert (Hargs : forall a, In a (o_args cur) -> fst a <> k).
+    { intros a Ha. pose proof (Hwf k cur Ecur) as Hf. rewrite Forall_forall in Hf. destruct (Hf a Ha). lia. }
+    assert (E1 : set_nth ops k (set_rets cur (map (mat_zero VO) (o_rets cur))) = map_op ops k (mat_zero VO)) by (unfold map_op; rewrite Ecur; reflexivity).
+    rewrite E1 in H.
+    destruct (gather_args F VO (map_op ops k (mat_zero VO)) e (o_args cur)) as [[xs ops2]|] eqn:Eg; [|discriminate].
+    destruct (gather_args_spec _ _ _ _ _ Eg) as (-> & Hxs).
+    assert (Ek2 : nth_error (fold_mat (map_op ops k (mat_zero VO)) (o_args cur)) k = Some (set_rets cur (map (mat_zero VO) (o_rets cur)))).
+    { rewrite fold_mat_other by auto. apply map_op_at. exact Ecur. }
+    rewrite Ek2 in H. cbn [o_op o_rets o_args set_rets] in H.
+    assert (Hgys : map (grad_or_zero VO) (map (mat_zero VO) (o_rets cur)) = map (grad_or_zero VO) (o_rets cur)).
+    { rewrite map_map. apply map_ext. intro s. apply grad_or_zero_mat. }
+    rewrite Hgys in H.
+    assert (Hxs' : Forall2 (fun a x => bread ops e a = Some x) (o_args cur) xs).
+    { eapply Forall2_impl_In; [|exact Hxs]. intros a x Ha. cbv beta. unfold bread. rewrite map_op_other by (apply Hargs; auto). auto. }
+    destruct (f_inner F (o_op cur)) as [p|] eqn:Ein.
+    - destruct (map (grad_or_zero VO) (o_rets cur)) as [|gy rest] eqn:Eg0; [discriminate|].
+      rewrite Ek2 in H. injection H as <- <- <-.
+      split; [reflexivity|]. split; [reflexivity|]. cbv zeta. exists xs. split; [exact Hxs'|].
+      left. exists p, gy, rest. repeat split; auto.
+      rewrite (map_op_some _ _ _ _ Ek2). reflexivity.
+    - rewrite all_vals_map_grad in H by (intro s; unfold mat_zero; destruct (s_grad s); reflexivity).
+      destruct (all_vals (o_rets cur)) as [ys|] eqn:Ey; [|discriminate].
+      match type of H with match nth_error ?o k with _ => _ end = _ => destruct (nth_error o k) as [cur3|] eqn:E3; [|discriminate] end.
+      injection H as <- <- <-.
+      split; [reflexivity|]. split; [reflexivity|]. cbv zeta. exists xs. split; [exact Hxs'|].
+      right. split; [reflexivity|]. exists ys. split; [reflexivity|].
+      split; [|reflexivity]. rewrite (map_op_some _ _ _ _ E3). reflexivity.
+  Qed.
+
+  (* ---------- the step, slot by slot ---------- *)
+  Definition addr_eq (a b : nat * nat) : bool := (Nat.eqb (fst a) (fst b) && Nat.eqb (snd a) (snd b))%bool.
+  Lemma addr_eq_spec a b : reflect (a = b) (addr_eq a b).
+  Proof.
+    unfold addr_eq. destruct a as [a1 a2], b as [b1 b2]; simpl.
+    destruct (Nat.eqb_spec a1 b1), (Nat.eqb_spec a2 b2); simpl; constructor; congruence.
+  Qed.
+  Definition mem_addr (b : nat * nat) (args : list (nat * nat)) : bool := existsb (fun a => addr_eq a b) args.
+  Fixpoint incs_for (b : nat * nat) (args : list (nat * nat)) (incs : list V) : list V :=
+    match args, incs with
+    | a :: args', inc :: incs' => if addr_eq a b then inc :: incs_for b args' incs' else incs_for b args' incs'
+    | _, _ => []
+    end.
+  Definition add_all (l : list V) (s : slot) : slot := fold_left (fun s inc => add_inc VO inc s) l s.
+
+  Lemma mat_zero_idem s : mat_zero VO (mat_zero VO s) = mat_zero VO s.
+  Proof. unfold mat_zero. destruct (s_grad s) eqn:E; cbn [s_grad set_grad]; [rewrite E|]; reflexivity. Qed.
+
+  Lemma fold_mat_get args : forall (ops : ops_t) b,
+    get_slot_ops (fold_mat ops args) b =
+    if mem_addr b args then option_map (mat_zero VO) (get_slot_ops ops b) else get_slot_ops ops b.
+  Proof.
+    induction args as [|a args IH]; intros ops b; simpl; auto.
+    unfold fold_mat in *. simpl. rewrite IH, upd_ops_get. fold (addr_eq a b).
+    destruct (addr_eq a b); simpl; destruct (mem_addr b args); auto.
+    destruct (get_slot_ops ops b); simpl; auto. rewrite mat_zero_idem. reflexivity.
+  Qed.
+  Lemma add_incs_get args : forall (ops : ops_t) incs b,
+    get_slot_ops (add_incs VO ops args incs) b = option_map (add_all (incs_for b args incs)) (get_slot_ops ops b).
+  Proof.
+    induction args as [|a args IH]; intros ops [|inc incs] b; simpl; try (destruct (get_slot_ops ops b); reflexivity).
+    rewrite IH, upd_ops_get. fold (addr_eq a b). destruct (addr_eq a b); simpl; auto.
+    destruct (get_slot_ops ops b); reflexivity.
+  Qed.
+
+  Definition step_slot (k : nat) (args : list (nat * nat)) (incs : list V) (b : nat * nat) (s : slot) : slot :=
+    if Nat.eqb k (fst b) then clr s
+    else add_all (incs_for b args incs) (if mem_addr b args then mat_zero VO s else s).
+
+  (* one enabled step = every slot transformed by step_slot, for increments [incs] *)
+  Definition step_incs (k : nat) (ops : ops_t) (e : env) (cur : opinfo) (incs : list V) : Prop :=
+    exists xs, Forall2 (fun a x => bread ops e a = Some x) (o_args cur) xs /\
+      match f_inner F (o_op cur) with
+      | Some _ => incs = []
+      | None => exists ys, all_vals (o_rets cur) = Some ys /\
+                           incs = eff_bw F (o_op cur) xs ys (map (grad_or_zero VO) (o_rets cur))
+      end.
+
+  Lemma mem_addr_in b args : mem_addr b args = true -> In b args.
+  Proof.
+    unfold mem_addr. rewrite existsb_exists. intros (a & Ha & E). destruct (addr_eq_spec a b); [subst; auto|discriminate].
+  Qed.
+  Lemma incs_for_nil b args incs : mem_addr b args = false -> incs_for b args incs = [].
+  Proof.
+    revert incs; induction args as [|a args IH]; intros [|inc incs] H; simpl in *; auto.
+    apply orb_false_iff in H. destruct H as (H1 & H2). rewrite H1. auto.
+  Qed.
+
+  Lemma fold_mat_length args : forall ops : ops_t, length (fold_mat ops args) = length ops.
+  Proof. induction args as [|a l IH]; intro o; simpl; auto. unfold fold_mat in *. simpl. rewrite IH. apply upd_ops_length. Qed.
+  Lemma add_incs_length args : forall (o : ops_t) incs, length (add_incs VO o args incs) = length o.
+  Proof. induction args as [|a l IH]; intros o [|i incs]; simpl; auto. rewrite IH. apply upd_ops_length. Qed.
+
+  (* the effect of the step on the parameter store: BACKWARD(Parameter) *)
+  Definition step_env (e : env) (cur : opinfo) : env :=
+    match f_inner F (o_op cur), map (grad_or_zero VO) (o_rets cur) with
+    | Some p, gy :: _ => add_pgrad VO e p gy
+    | _, _ => e
+    end.
+
+  Lemma step_get k (ops : ops_t) e ops' e' : wf_ops ops -> bstep F VO k ops e = Some (ops', e', true) ->
+    exists cur incs, nth_error ops k = Some cur /\ enabled (o_rets cur) = true /\ step_incs k ops e cur incs /\
+      (forall b, get_slot_ops ops' b = option_map (step_slot k (o_args cur) incs b) (get_slot_ops ops b)) /\
+      length ops' = length ops /\ sg ops' = sg ops /\ e' = step_env e cur.
+  Proof.
+    intros Hwf H. destruct (bstep_shape _ _ _ _ _ _ Hwf H) as (cur & Ecur & [(Hc & _)|(_ & Hen & Hrest)]); [discriminate|].
+    cbv zeta in Hrest. destruct Hrest as (xs & Hxs & Hcase).
+    assert (Hargs : forall a, In a (o_args cur) -> fst a <> k).
+    { intros a Ha. pose proof (Hwf k cur Ecur) as Hf. rewrite Forall_forall in Hf. destruct (Hf a Ha). lia. }
+    assert (Hmem : forall b, k = fst b -> mem_addr b (o_args cur) = false).
+    { intros b Hb. destruct (mem_addr b (o_args cur)) eqn:E; auto. apply mem_addr_in in E. exfalso. apply (Hargs b E). auto. }
+    destruct Hcase as [(p & gy & rest & Ein & Egys & -> & ->)|(Ein & ys & Eys & -> & ->)].
+    - exists cur, []. split; [exact Ecur|]. split; [exact Hen|]. split; [exists xs; split; [exact Hxs|rewrite Ein; reflexivity]|].
+      split; [|split; [|split]].
+      + intro b. rewrite map_op_get, fold_mat_get, map_op_get. unfold step_slot.
+        destruct (Nat.eqb_spec k (fst b)) as [Hk|Hk].
+        * rewrite (Hmem b Hk). destruct (get_slot_ops ops b); simpl; [f_equal; apply mat_zero_grad_only|reflexivity].
+        * assert (Hnil : incs_for b (o_args cur) [] = []) by (destruct (o_args cur); reflexivity). rewrite Hnil.
+          destruct (mem_addr b (o_args cur)); destruct (get_slot_ops ops b); reflexivity.
+      + rewrite map_op_length, fold_mat_length. apply map_op_length.
+      + rewrite map_op_sg by apply clr_grad_only. rewrite fold_mat_sg. apply map_op_sg. apply mat_zero_grad_only.
+      + unfold step_env. rewrite Ein, Egys. reflexivity.
+    - exists cur, (eff_bw F (o_op cur) xs ys (map (grad_or_zero VO) (o_rets cur))).
+      split; [exact Ecur|]. split; [exact Hen|]. split; [exists xs; split; [exact Hxs|rewrite Ein; exists ys; auto]|].
+      split; [|split; [|split]].
+      + intro b. rewrite map_op_get, add_incs_get, fold_mat_get, map_op_get. unfold step_slot.
+        destruct (Nat.eqb_spec k (fst b)) as [Hk|Hk].
+        * rewrite (Hmem b Hk), (incs_for_nil _ _ _ (Hmem b Hk)).
+          destruct (get_slot_ops ops b); simpl; [f_equal; apply mat_zero_grad_only|reflexivity].
+        * destruct (mem_addr b (o_args cur)); destruct (get_slot_ops ops b); reflexivity.
+      + rewrite map_op_length, add_incs_length, fold_mat_length. apply map_op_length.
+      + rewrite map_op_sg by apply clr_grad_only. rewrite add_incs_sg, fold_mat_sg. apply map_op_sg. apply mat_zero_grad_only.
+      + unfold step_env. rewrite Ein. reflexivity.
   Qed.
 End BackwardProofs.
